@@ -132,24 +132,24 @@ static Seen walk_enum(R&& range, int style)
         for (auto p : range)
         {
             note(s, p);
-            if (++guard > 16)
+            if (++guard > 5000)
                 break;
         }
     }
     else if (style == 1)
     {
-        for (auto it = range.begin(); it != range.end() && guard++ < 16; ++it)
+        for (auto it = range.begin(); it != range.end() && guard++ < 5000; ++it)
             note(s, *it);
     }
     else if (style == 2)
     {
-        for (auto it = range.begin(); it != range.end() && guard++ < 16; it++)
+        for (auto it = range.begin(); it != range.end() && guard++ < 5000; it++)
             note(s, *it);
     }
     else
     {
         auto it = range.begin();
-        while (it != range.end() && guard++ < 16)
+        while (it != range.end() && guard++ < 5000)
             note(s, *it++);
     }
     return s;
@@ -190,13 +190,13 @@ static Seen walk_rev(R&& range, int style)
             }
             else
                 s.val.push_back(a->v);
-            if (++guard > 16)
+            if (++guard > 5000)
                 break;
         }
     }
     else
     {
-        for (auto it = range.begin(); it != range.end() && guard++ < 16; ++it)
+        for (auto it = range.begin(); it != range.end() && guard++ < 5000; ++it)
         {
             const E* a = addr(*it);
             s.at.push_back(a);
@@ -616,6 +616,17 @@ static std::vector<Case> cases()
                 for (int style = 0; style < (adaptor != 1 ? 4 : 2); style++)
                     cs.push_back({ "set/" + std::to_string(n) + "/" + std::to_string(cat) + "/" + std::to_string(adaptor) + "/" + std::to_string(style),
                                    [=] { return run_container<decltype(&mk_set), false>("set", mk_set, n, cat, adaptor, style); } });
+    // sizes: beyond small buffers / narrow index types
+    for (int n : { 17, 300, 4097 })
+    {
+        add_kind("vector", mk_vector, n, n);
+        add_kind("deque", mk_deque, n, n);
+        add_kind("list", mk_list, n, n);
+        add_kind("map", mk_map, n, n);
+        add_kind("fixed_vector(full)", mk_fv_full, n, n);
+        add_kind("fixed_vector(spare capacity)", mk_fv_spare, n, n);
+    }
+    add_kind("array<300>", mk_array<300>, 300, 300);
     add_kind("vector", mk_vector, 0, 4);
     add_kind("deque", mk_deque, 0, 4);
     add_kind("list", mk_list, 0, 4);
